@@ -33,6 +33,7 @@ type Interp struct {
 	globalTrail []globalUndo
 	syncDepth   int // > 0 between Lock and Unlock and inside atomic operations (natives_sync.go)
 	syncMaps    map[*Value]*[]syncMapEntry
+	syncPools   map[*Value]*[]Value
 	runeBounds  map[*Term][2]int64
 	initDone    map[*ssa.Package]bool
 
